@@ -7,8 +7,12 @@ import (
 	"go/types"
 	"strings"
 
+	"golang.org/x/tools/go/cfg"
+
 	"verif/sa/core"
 )
+
+type cfgBlock = cfg.Block
 
 // Extra C04 rule (own file; runs after the main C04 rules).
 func init() { register("C04", c04SearchIndex) }
@@ -100,4 +104,220 @@ func c04SearchIndex(c *core.Check) {
 	if nsite == 0 {
 		c.Ok("C04-R8", "no search-result index", "-", fmt.Sprintf("%d functions reachable from execute, none indexes by a binary-search result", nf))
 	}
+}
+
+func init() { register("C04", c04IntDivision); register("C04", c04ConditionValue) }
+
+// c04IntDivision: an integer division or remainder faults on a zero divisor
+// (and Go does not turn that into NaN as it does for floats).  Every such
+// operation in the VM package that instruction execution can reach must be on
+// a path where its divisor was found different from zero, or divide by a
+// non-zero constant.
+func c04IntDivision(c *core.Check) {
+	c.Rule("C04-R9", "INT-DIVISION: in every function of package vm reachable from (*VM).execute, each integer `/` or `%` (also `/=`, `%=`) has a divisor that is a non-zero constant, or is reached only over the non-zero edge of a comparison of that divisor with 0 — the explicit `division by zero` runtime error is the only way a zero divisor is met")
+	exe := c.Prog.Fn(vmExecute)
+	if exe == nil {
+		c.Undecided("C04-R9", vmExecute, "-", "execute not found")
+		return
+	}
+	n := 0
+	for _, f := range closureFrom(exe) {
+		if core.Rel(f.Pkg.PkgPath) != "internal/runtime/vm" {
+			continue
+		}
+		info := f.Info()
+		isInt := func(e ast.Expr) bool {
+			t := info.TypeOf(e)
+			if t == nil {
+				return false
+			}
+			b, ok := t.Underlying().(*types.Basic)
+			return ok && b.Info()&types.IsInteger != 0
+		}
+		g := f.Graph()
+		var sites []struct {
+			node    ast.Node
+			divisor ast.Expr
+		}
+		ast.Inspect(f.Body, func(nd ast.Node) bool {
+			switch x := nd.(type) {
+			case *ast.BinaryExpr:
+				if (x.Op == token.QUO || x.Op == token.REM) && isInt(x.X) && isInt(x.Y) {
+					sites = append(sites, struct {
+						node    ast.Node
+						divisor ast.Expr
+					}{x, x.Y})
+				}
+			case *ast.AssignStmt:
+				if (x.Tok == token.QUO_ASSIGN || x.Tok == token.REM_ASSIGN) && len(x.Lhs) == 1 && isInt(x.Lhs[0]) {
+					sites = append(sites, struct {
+						node    ast.Node
+						divisor ast.Expr
+					}{x, x.Rhs[0]})
+				}
+			}
+			return true
+		})
+		for _, s := range sites {
+			n++
+			key := fmt.Sprintf("%s|integer division#%d", f.Key, n)
+			c.Analysed(f)
+			if v, ok := constInt(info, s.divisor); ok {
+				c.Verdict(v != 0, "C04-R9", key, pos(c, s.node), "non-zero constant divisor", "division by the constant 0")
+				continue
+			}
+			d := identObj(info, s.divisor)
+			p, okP := g.PointOf(s.node)
+			if d == nil || !okP {
+				c.Undecided("C04-R9", key, pos(c, s.node), "divisor is not a plain variable (or the operation is not in the control-flow graph): no zero test can be matched to it")
+				continue
+			}
+			// edges on which d != 0 is known: else-edge of `d == 0`, then-edge of `d != 0`
+			type edge struct {
+				b    *cfg.Block
+				succ int
+			}
+			known := map[edge]bool{}
+			for _, is := range ifsWhere(f, func(is *ast.IfStmt) bool {
+				be, ok := core.Unparen(is.Cond).(*ast.BinaryExpr)
+				if !ok || (be.Op != token.EQL && be.Op != token.NEQ) {
+					return false
+				}
+				zx, okx := constInt(info, be.X)
+				zy, oky := constInt(info, be.Y)
+				return identObj(info, be.X) == d && oky && zy == 0 || identObj(info, be.Y) == d && okx && zx == 0
+			}) {
+				cb := g.CondBlock(is)
+				if cb == nil {
+					continue
+				}
+				be := core.Unparen(is.Cond).(*ast.BinaryExpr)
+				if be.Op == token.EQL {
+					known[edge{cb, 1}] = true
+				} else {
+					known[edge{cb, 0}] = true
+				}
+			}
+			// is there a path from the last definition-free entry to the division that never takes a known edge?
+			// (paths through a known edge are cut)
+			tr, found := g.Search(core.Query{Goal: core.At(p), AvoidEdge: func(b *cfgBlock, succ int) bool { return known[edge{b, succ}] }})
+			c.Verdict(!found, "C04-R9", key, pos(c, s.node), "reached only with a divisor found non-zero", "an integer division or remainder is reachable with a divisor that was never compared with zero: a zero divisor (for `1 / r`: any base whose power wraps to 0) makes the Go runtime panic inside the VM instead of raising the checked `divide by zero` runtime error", g.Trail(tr)...)
+		}
+	}
+	c.Floor("C04-R9", 2)
+}
+
+// c04ConditionValue: the conditional jump pops exactly one value, so every
+// kind of node that the checker accepts as the condition of a block must push
+// exactly one.  A builtin call can push none (settime, strptime and every
+// other builtin whose result type is None).
+func c04ConditionValue(c *core.Check) {
+	c.Rule("C04-R10", "CONDITION-VALUE: the node kinds that checker.VisitAfter accepts (reports no error for) as the condition of a CondStmt are kinds whose code always pushes one value; *ast.BuiltinExpr is such a kind only if the acceptance is conditional on the call's type (some builtins return None and push nothing: the jump would pop an empty stack)")
+	va := c.Prog.Fn(checkerAfter)
+	if va == nil {
+		c.Undecided("C04-R10", checkerAfter, "-", "checker VisitAfter not found")
+		return
+	}
+	info := va.Info()
+	c.Analysed(va)
+	// builtins without a value
+	noneBuiltins := 0
+	if tp := c.Prog.Pkgs["internal/runtime/compiler/types"]; tp != nil {
+		for _, f := range tp.Syntax {
+			ast.Inspect(f, func(n ast.Node) bool {
+				kv, ok := n.(*ast.KeyValueExpr)
+				if !ok {
+					return true
+				}
+				if call, ok := kv.Value.(*ast.CallExpr); ok && len(call.Args) > 0 {
+					last := call.Args[len(call.Args)-1]
+					if id, ok := last.(*ast.Ident); ok && id.Name == "None" {
+						if _, isStr := kv.Key.(*ast.BasicLit); isStr {
+							noneBuiltins++
+						}
+					}
+				}
+				return true
+			})
+		}
+	}
+	c.Extra["builtins_without_value"] = noneBuiltins
+	found := false
+	ast.Inspect(va.Body, func(n ast.Node) bool {
+		cc, ok := n.(*ast.CaseClause)
+		if !ok {
+			return true
+		}
+		isCond := false
+		for _, e := range cc.List {
+			if t := info.TypeOf(e); t != nil && strings.HasSuffix(t.String(), "ast.CondStmt") {
+				isCond = true
+			}
+		}
+		if !isCond {
+			return true
+		}
+		ast.Inspect(cc, func(m ast.Node) bool {
+			ts, ok := m.(*ast.TypeSwitchStmt)
+			if !ok {
+				return true
+			}
+			// a type switch on <node>.Cond
+			tagOK := false
+			ast.Inspect(ts.Assign, func(x ast.Node) bool {
+				if sel, ok := x.(*ast.SelectorExpr); ok && sel.Sel.Name == "Cond" {
+					tagOK = true
+				}
+				return true
+			})
+			if !tagOK {
+				return true
+			}
+			found = true
+			for _, cl := range ts.Body.List {
+				k := cl.(*ast.CaseClause)
+				rejects := false
+				ast.Inspect(k, func(x ast.Node) bool {
+					if call, ok := x.(*ast.CallExpr); ok && strings.HasSuffix(va.CalleeID(call), "ErrorList).Add") {
+						rejects = true
+					}
+					return true
+				})
+				typeTested := false
+				ast.Inspect(k, func(x ast.Node) bool {
+					if call, ok := x.(*ast.CallExpr); ok {
+						if sel, ok := call.Fun.(*ast.SelectorExpr); ok && sel.Sel.Name == "Type" {
+							typeTested = true
+						}
+					}
+					return true
+				})
+				for _, e := range k.List {
+					t := info.TypeOf(e)
+					if t == nil {
+						continue
+					}
+					name := t.String()
+					name = name[strings.LastIndex(name, ".")+1:]
+					key := "condition kind " + name
+					switch {
+					case rejects && !typeTested:
+						c.Ok("C04-R10", key, pos(c, e), "rejected with an error")
+					case name == "BuiltinExpr" && noneBuiltins > 0 && !typeTested:
+						c.Fail("C04-R10", key, pos(c, e), fmt.Sprintf("a builtin call is accepted as the condition of a block whatever its type, but %d builtins (settime, strptime, …) return None and push no value: the conditional jump that follows pops an empty stack — index out of range inside the VM for a program the compiler accepted", noneBuiltins))
+					case name == "ExprList" || name == "StmtList":
+						c.Fail("C04-R10", key, pos(c, e), "a list node is accepted as a condition: it pushes any number of values")
+					default:
+						c.Ok("C04-R10", key, pos(c, e), "pushes one value")
+					}
+				}
+			}
+			return false
+		})
+		return true
+	})
+	if !found {
+		c.Undecided("C04-R10", checkerAfter+"|CondStmt", pos(c, va.Decl), "the type switch over the condition's node kind was not found in the CondStmt clause")
+	}
+	c.Floor("C04-R10", 3)
 }
